@@ -3,6 +3,7 @@
 SPECIFICATION Spec
 CONSTANTS
   Modes = {"udp"}
+  LogLevels = {"info", "debug"}
   MaxPkts = 2
   ValidateKnown = TRUE
   TcpDests <- McTcpDests
